@@ -2,6 +2,7 @@
 import c19_rules
 import quantile_rules
 import generic_lints
+import predicates
 import twins
 
 
@@ -20,6 +21,7 @@ def run(facts, tier):
         ("foreign memory", c19_rules.foreign_memory, 0, "no new/delete/malloc outside the user's allocator (reviewed exception: CPC compressor tables)"),
         ("dangling references", c19_rules.dangling_returns, 50, "no function returns a reference to a local object"),
         ("reset completeness", lambda fa: c19_rules.reset_completeness(fa, None), 35, "every field a mutator modifies is re-initialised by reset() (a reused object equals a fresh one); reviewed exceptions are configuration fields"),
+        ("emptiness predicate support", lambda fa: predicates.obligations(fa, None), 30, "the emptiness predicate still consults every field it depended on in the reviewed tree (spec/predicates.json)"),
         ("tautologies", lambda fa: generic_lints.tautologies(fa, None), 2, "no comparison / assignment / min-max with two identical operands, no if-else with identical arms"),
         ("duplicate operands", lambda fa: generic_lints.duplicate_conjuncts(fa, None), 2, "no logical chain tests the same operand twice (copy-paste of the wrong peer)"),
         ("stale aliases", lambda fa: generic_lints.stale_aliases(fa, None), 1, "no use of a local pointer alias after its origin was re-assigned and the replaced object released (use after free; the replacement never receives the operation)"),
